@@ -100,8 +100,40 @@ pub struct Outcome {
     pub body_bytes: u64,
 }
 
+fn has_hint(case: &ServeCase, key: u64) -> bool {
+    match &case.hints {
+        Val::L(l) => l.iter().any(|h| matches!(h, Val::L(kv) if kv.first().and_then(|k| k.as_n()) == Some(key))),
+        _ => false,
+    }
+}
+
+fn subsec_ms() -> u32 {
+    SystemTime::now().duration_since(SystemTime::UNIX_EPOCH).map(|d| d.subsec_millis()).unwrap_or(0)
+}
+
+/// Hint 9: the case is the second request of a two-request history on one thread that straddles a
+/// wall-clock second boundary: a warm-up request late in one second, then (less than a second
+/// later) the case itself early in the next second. Anything the crate remembers between
+/// responses (a cached clock reading, a cached header value) is stale by then.
+fn second_boundary_warm_up() {
+    while subsec_ms() < 850 {
+        std::thread::sleep(std::time::Duration::from_millis(5));
+    }
+    let cfg = EntityCfg { len: 10, etag: None, mtime_ns: Some(784111777u64 * 1_000_000_000), hdrs: vec![], recipes: vec![], default_recipe: vec![Op::Rest] };
+    let ent = ScriptedEntity { cfg, log: Arc::new(Mutex::new(Log::default())) };
+    let req = http::Request::builder().method("GET").body(()).unwrap();
+    let _ = catch_unwind(AssertUnwindSafe(|| http_serve::serve(ent, &req)));
+    while subsec_ms() >= 850 {
+        std::thread::sleep(std::time::Duration::from_millis(2));
+    }
+    std::thread::sleep(std::time::Duration::from_millis(30));
+}
+
 pub fn run(case: &ServeCase) -> Outcome {
     let mut checks = vec![];
+    if has_hint(case, 9) {
+        second_boundary_warm_up();
+    }
     let log = Arc::new(Mutex::new(Log::default()));
     let ent = ScriptedEntity { cfg: case.ent.clone(), log: log.clone() };
     let mut rb = http::Request::builder().method(http::Method::from_bytes(&case.method).expect("valid method token"));
@@ -144,7 +176,7 @@ pub fn run(case: &ServeCase) -> Outcome {
                         if let Some(s) = std::str::from_utf8(&val).ok().and_then(|s| s.strip_prefix('@')) {
                             now_s = s.parse().unwrap_or(0);
                             if now_s < t0 || now_s > t1 {
-                                checks.push("date-outside-call-window".into());
+                                checks.push("C14:date-is-the-clock-at-the-time-of-the-response".into());
                             }
                         }
                     }
